@@ -282,6 +282,10 @@ def _deepcopy(interp, args, kwargs):
     key = x.t if x.ty.name == "Ref" else sort_of(x.ty).val(x.t)
     now0 = ctx.now
     new = interp.new_object(rty.args[0].name)
+    from pyvc import contract as _C
+    if _C.class_field(rty.args[0].name, "__str__") is not None and x.ty.name == "Ref":
+        # a deep copy prints like its original (classes whose model has the text view __str__)
+        interp.field_write(new, "__str__", interp.field_read(x, "__str__"))
     r = new.t
     if isinstance(memo, Cell) and memo.kind == "dict":
         if memo.sym is None:
